@@ -130,7 +130,14 @@ def gen_grammar(rng, tier, base, cli):
         if mode is not None:
             ops += [["gbin", "g", "b", mode["reordering"], mode["markov"]], ["gdump", "b"]]
             var = "b"
-        ops.append(["gwrite", dfmt, var, dest, "utf-8", {}])
+        gopts = {"lex_in_grammar": True} if dfmt != "lopar" and rng.random() < 0.3 else {}
+        ops.append(["gwrite", dfmt, var, dest, "utf-8", gopts])
+        if dfmt == "rcg" and not gopts and rng.random() < 0.4:
+            # the grammar files are read back and re-emitted by the command line
+            ops.append(["gread", "rcg", "r2", dest, "utf-8", {}])
+            ops.append(["gdump", "r2"])
+            ops.append(["cli", ["grammar", dest, "%s/h" % base, "treebank", "--src-format", "rcg",
+                                "--dest-format", "pmcfg"]])
     return {"kind": "cli_grammar" if cli else "grammar", "ops": ops, "files": {path: f},
             "meta": {"src_fmt": fmt, "dest_fmt": dfmt, "mode": mode}}
 
